@@ -58,6 +58,9 @@ def loop_inv(it, env, idx, ctx):
                                         z3.Implies(z3.Not(w.max_unknown.none), g["ra_UNKNOWN"] <= pos(w.max_unknown.val.t))))
     add("post-sleep-deadline-check", z3.Implies(a > 1, z3.And(z3.Not(g["need_post_sleep_read"]),
                                                               g["post_sleep_elapsed"] <= w.deadline.s)))
+    add("post-sleep-read-is-a-rounded-clock-reading",
+        z3.Implies(a > 1, z3.And(g["post_sleep_elapsed"] - (g["post_sleep_t"] - start) <= EPS / 2,
+                                 (g["post_sleep_t"] - start) - g["post_sleep_elapsed"] <= EPS / 2)))
     add("sleep-budget", z3.And(g["slept_total"] >= 0, start <= g["now"], g["slept_total"] <= g["now"] - start,
                                g["slept_total"] <= pos(w.deadline_s) + EPS))
     fn_none = T(it.is_none(env.lookup("sleep_fn")))
@@ -405,6 +408,7 @@ def t_runner(it, runner, split=None):
         def on_write(it_, o, attr, mode, node):
             if w.state_obj is None and o.cls is not None and o.cls.name == "_RetryState":
                 w.state_obj = o
+                w.state = o
 
         it.field_hooks.append(on_write)
         r = call_catch(it, FuncV(tree.func(key)), [], w.runner_kwargs(execute=is_exec))
